@@ -561,6 +561,18 @@ def apply_forloops(ed, loops, src, ann, qual):
         xs, xe = l["iter_expr"]
         xtxt = src[xs:xe].decode().strip()
         ptxt = src[l["pat"][0]:l["pat"][1]].decode()
+        mrev = re.match(r"^\(\s*([\w\.\(\)\s\+\-\*]+?)\s*\.\.\s*([\w\.\(\)\s\+\-\*]+?)\s*\)\s*\.\s*rev\(\)$", xtxt)
+        if mrev:
+            # D3 on a reversed half-open range: `for x in (A..B).rev()` -> descending counter loop
+            lo, hi = mrev.group(1).strip(), mrev.group(2).strip()
+            b0, b1 = l["body"]
+            body_txt = src[b0:b1].decode()
+            if re.search(r"\bcontinue\b", body_txt):
+                raise Inconclusive(f"D3: reversed range loop #{k} of {qual} with `continue`")
+            head = (f"let verif_lo{k} = {lo}; let mut verif_r{k} = {hi};\nwhile verif_r{k} > verif_lo{k}\n" + inv.rstrip()
+                    + f"\n    decreases verif_r{k} - verif_lo{k}\n{{ verif_r{k} = verif_r{k} - 1; let {ptxt} = verif_r{k};\n")
+            ed.add(l["span"][0], b0 + 1, head, "D3", f"`for {ptxt} in {xtxt[:30]}` desugared to a descending counter loop (body copied by span)")
+            continue
         mr = re.match(r"^([\w\.\(\)\s\+\-\*]+?)\s*\.\.(=?)\s*([\w\.\(\)\s\+\-\*]+)$", xtxt)
         if mr and ".." not in mr.group(1) and ".." not in mr.group(3):
             # D3 on an integer range: `for x in A..=B` / `A..B` -> counter loop (the inclusive form stops by comparison, never by overflow)
